@@ -956,3 +956,267 @@ class IdExprGen:
             return ("fn", r.choice(["name", "local-name", "string", "namespace-uri", "boolean", "not", "string-length", "number", "sum"]), [idn])
         # comparisons of an id() node-set with strings / other node-sets
         return (r.choice(["eq", "ne", "lt"]), idn, r.choice([("lit", self.idv()), self.attr_path(True), ("num", "12"), self.nodeset_id(0)]))
+
+
+# ------------------------------------------------------------------------------------------------
+# the namespace-axis stream (C02, known finding K21): documents whose namespace environment changes at
+# several depths and expressions built around namespace:: steps.  Used only by props/C02.py:ns_stream with
+# a random.Random of its own; nothing above draws from it, the random streams of the other styles are
+# what they were.
+
+NS_URIS = {"": ["urn:d", "urn:d", "urn:e"], "p": ["urn:p", "urn:p", "urn:q", "urn:r"], "q": ["urn:q", "urn:q", "urn:p"]}
+
+
+def gen_ns_tree(r, depth, maxch, env, state, force_default=None):
+    """('e', qname, attrs, children) with xmlns declarations chosen against the environment `env` (prefix -> URI)
+    in scope on the parent: xmlns="" below a non-empty default (the undeclaration XPath 5.4 speaks of), xmlns=""
+    where there is nothing to undeclare, a default re-declared (same or another URI) below an undeclaration,
+    p / q re-declared with the same or another URI at any depth.  state counts the classes."""
+    env = dict(env)
+    decls = []
+    k = r.random()
+    if force_default is not None:
+        decls.append(("xmlns", force_default))
+    elif env.get("", "") != "":
+        if k < 0.32:
+            decls.append(("xmlns", ""))
+            state["undeclare-below-default"] = state.get("undeclare-below-default", 0) + 1
+        elif k < 0.47:
+            decls.append(("xmlns", r.choice(NS_URIS[""])))
+            state["default-redeclared"] = state.get("default-redeclared", 0) + 1
+    else:
+        if k < 0.30:
+            decls.append(("xmlns", r.choice(NS_URIS[""])))
+            if "" in env:
+                state["default-declared-below-undeclaration"] = state.get("default-declared-below-undeclaration", 0) + 1
+        elif k < 0.40:
+            decls.append(("xmlns", ""))
+            state["undeclare-nothing"] = state.get("undeclare-nothing", 0) + 1
+    for p in ("p", "q"):
+        if r.random() < (0.22 if p in env else 0.30):
+            u = r.choice(NS_URIS[p])
+            if p in env:
+                state["prefix-redeclared" + ("-same-uri" if env[p] == u else "")] = state.get("prefix-redeclared" + ("-same-uri" if env[p] == u else ""), 0) + 1
+            decls.append(("xmlns:" + p, u))
+    for a, v in decls:
+        env[a[6:] if ":" in a else ""] = v
+    names = ["a", "b", "c", "a", "b"] + [p + ":" + l for p in ("p", "q") if p in env for l in ("a", "b")]
+    name = r.choice(names)
+    attrs = []
+    for a in r.sample(["x", "y", "n"], r.choice([0, 0, 1, 1, 2])):
+        attrs.append((a, r.choice(["1", "2", "a", "urn:d", "urn:p", ""])))
+    if "p" in env and r.random() < 0.15:
+        attrs.append(("p:z", r.choice(["1", "urn:p"])))
+    # the declarations in any order among themselves, but BEFORE the ordinary attributes: the parser hands the
+    # tree builder the xmlns attributes of a start tag first (their relative order kept), and the node numbering
+    # shared by harness/xp.cpp, build_nodes and DomDefs.build_doc is "attributes in source order"
+    r.shuffle(decls)
+    attrs = decls + attrs
+    children = []
+    if depth > 0:
+        last_text = False
+        for _ in range(r.randrange(1 if depth > 1 else 0, maxch + 1)):
+            if r.random() < 0.8:
+                children.append(gen_ns_tree(r, depth - 1, maxch, env, state))
+                last_text = False
+            elif not last_text:
+                children.append(("t", r.choice(["1", "urn:d", "a", " ", "urn:p"])))
+                last_text = True
+    return ("e", name, attrs, children)
+
+
+def gen_ns_doc(r, size="small"):
+    """-> (top, classes): the document element declares a non-empty default namespace in 3 of 4 documents"""
+    depth, maxch = (3, 2) if size == "small" else (4, 3)
+    state = {}
+    top = []
+    if r.random() < 0.1:
+        top.append(("c", "top"))
+    top.append(gen_ns_tree(r, depth, maxch, {}, state, force_default=r.choice(["urn:d", "urn:e"]) if r.random() < 0.75 else None))
+    return top, state
+
+
+class NsExprGen:
+    """expressions around namespace:: steps: namespace::* / namespace::p / namespace::q / namespace::xml /
+    namespace::node() (and tests that select nothing), with predicates (position, name(), the URI), reached from
+    the context node and from element selections, inside count / name / local-name / namespace-uri / string /
+    comparisons / unions / filter expressions / predicates of element steps, and FOLLOWED by steps (parent,
+    ancestor, following, preceding, self, namespace, attribute) that start at the selected nodes"""
+
+    def __init__(self, r, nodes, variables=None):
+        self.r, self.nodes = r, nodes
+        self.vars = variables or {}
+        self.g = ExprGen(r, nodes=nodes, depth=1, variables=variables)
+        self.uris = sorted({n.value for n in nodes if n.kind == "nsdecl"} | {"urn:d", ""})
+        self.elnames = sorted({n.qname for n in nodes if n.kind == "elem" and ":" not in n.qname}) or ["a"]
+
+    def pred(self, e):
+        return (has_pos(e), e)
+
+    def F(self, name, *a):
+        return ("fn", name, list(a))
+
+    def ns_test(self):
+        return self.r.choice([("name", None, None)] * 5 + [("name", None, "p")] * 3 + [("name", None, "q")] * 2 +
+                             [("name", None, "xml"), "node", "node", ("name", None, "d"), "text", "comment"])
+
+    def ns_pred(self):
+        r, F = self.r, self.F
+        k = r.randrange(14)
+        if k == 0:
+            e = ("num", r.choice(["1", "1", "2", "3", "4"]))
+        elif k == 1:
+            e = F("last")
+        elif k == 2:
+            e = self.g.binop(r.choice(["gt", "lt", "eq", "ne"]), F("position"), r.choice([("num", "1"), ("num", "2"), F("last")]))
+        elif k == 3:
+            e = self.g.binop(r.choice(["eq", "ne"]), F("name"), ("lit", r.choice(["", "", "p", "q", "xml", "xmlns"])))
+        elif k == 4:
+            e = F("not", F("name"))
+        elif k == 5:
+            e = self.g.binop(r.choice(["eq", "ne"]), ("path", None, [], [("self", "node", [])]), ("lit", r.choice(self.uris)))
+        elif k == 6:
+            e = F("starts-with", ("path", None, [], [("self", "node", [])]), ("lit", r.choice(["urn:", "urn:d", "http"])))
+        elif k == 7:
+            e = self.g.binop(r.choice(["eq", "gt"]), F("string-length", F(r.choice(["name", "local-name"]))), ("num", r.choice(["0", "1"])))
+        elif k == 8:
+            e = self.g.binop("eq", F("local-name"), ("lit", r.choice(["p", "q", "", "xmlns"])))
+        elif k == 9:
+            e = ("path", None, [], [("parent", "node", []), ("attribute", ("name", None, r.choice(["x", "y", None])), [])])
+        elif k == 10:
+            e = self.g.binop(r.choice(["gt", "eq"]), F("count", ("path", None, [], [("parent", "node", []), ("namespace", ("name", None, None), [])])), ("num", r.choice(["1", "2", "3"])))
+        elif k == 11:
+            e = self.g.binop("eq", F("namespace-uri"), ("lit", r.choice(["", "urn:p"])))
+        elif k == 12:
+            e = self.g.binop("eq", ("path", None, [], [("self", "node", [])]), ("path", None, [], [("parent", "node", []), ("attribute", ("name", None, None), [])]))
+        else:
+            e = self.g.binop("ne", F("name"), F("name", ("path", None, [], [("parent", ("name", None, None), [])])))
+        return self.pred(e)
+
+    def ns_step(self):
+        r = self.r
+        return ("namespace", self.ns_test(), [self.ns_pred() for _ in range(r.choice([0, 0, 0, 1, 1, 2]))])
+
+    def el_pred(self):
+        """a predicate of an ELEMENT step that looks at the element's namespace nodes"""
+        r, F = self.r, self.F
+        k = r.randrange(7)
+        ns = ("path", None, [], [self.ns_step()])
+        if k == 0:
+            e = ns
+        elif k == 1:
+            e = F("not", ("path", None, [], [("namespace", ("name", None, None), [self.pred(self.g.binop("eq", F("name"), ("lit", "")))])]))
+        elif k == 2:
+            e = self.g.binop(r.choice(["eq", "gt", "lt"]), F("count", ns), ("num", r.choice(["1", "2", "3", "4"])))
+        elif k == 3:
+            e = self.g.binop(r.choice(["eq", "ne"]), ns, ("lit", r.choice(self.uris)))
+        elif k == 4:
+            e = self.g.binop("eq", F("namespace-uri"), ("path", None, [], [("namespace", ("name", None, None), [self.pred(F("not", F("name")))])]))
+        elif k == 5:
+            e = ("path", None, [], [("attribute", ("name", None, r.choice(["x", "y"])), [])])
+        else:
+            e = self.g.binop("ne", F("count", ns), F("count", ("path", None, [], [("parent", "node", []), ("namespace", ("name", None, None), [])])))
+        return self.pred(e)
+
+    def el_steps(self):
+        """steps selecting elements (possibly none = the context node itself)"""
+        r = self.r
+        anyel = ("name", None, None)
+        nm = ("name", None, r.choice(self.elnames))
+        k = r.randrange(12)
+        if k <= 1:
+            st = []
+        elif k == 2:
+            st = [("root", "root", []), ("descendant-or-self", "node", []), ("child", anyel, [])]
+        elif k == 3:
+            st = [("root", "root", []), ("descendant-or-self", "node", []), ("child", nm, [])]
+        elif k == 4:
+            st = [("descendant-or-self", anyel, [])]
+        elif k == 5:
+            st = [("child", anyel, [])]
+        elif k == 6:
+            st = [("parent", "node", [])]
+        elif k == 7:
+            st = [("ancestor-or-self", anyel, [])]
+        elif k == 8:
+            st = [("root", "root", []), ("child", anyel, [])]
+        elif k == 9:
+            st = [("descendant", anyel, [self.pred(("num", r.choice(["1", "2", "3"])))])]
+        elif k == 10:
+            st = [("root", "root", []), ("descendant", r.choice([anyel, nm, ("name", "urn:p", None)]), [])]
+        else:
+            st = [("ancestor", anyel, [self.pred(("num", r.choice(["1", "2"])))])]
+        if st and st[-1][0] != "parent" and r.random() < 0.3:
+            ax, t, ps = st[-1]
+            st[-1] = (ax, t, ps + [self.el_pred()])
+        return st
+
+    def ns_path(self):
+        r = self.r
+        if self.g.vars_of("nodes") and r.random() < 0.08:
+            return ("path", ("var", r.choice(self.g.vars_of("nodes"))), [], [self.ns_step()])
+        return ("path", None, [], self.el_steps() + [self.ns_step()])
+
+    def after(self, p):
+        """p followed by steps that START at the selected namespace nodes"""
+        r = self.r
+        anyel = ("name", None, None)
+        more = r.choice([
+            [("parent", "node", [])], [("parent", anyel, [])], [("ancestor", anyel, [])], [("ancestor-or-self", "node", [])],
+            [("self", "node", [])], [("self", anyel, [])], [("following", anyel, [])], [("preceding", anyel, [])],
+            [("following-sibling", "node", [])], [("preceding-sibling", "node", [])], [("child", "node", [])], [("descendant-or-self", "node", [])],
+            [("attribute", anyel, [])], [("namespace", anyel, [])], [("parent", "node", []), ("namespace", anyel, [])],
+            [("parent", "node", []), ("attribute", anyel, [])], [("parent", "node", []), ("child", anyel, [])],
+            [("ancestor", anyel, [self.pred(("num", "1"))])], [("parent", "node", []), ("parent", "node", []), ("namespace", self.ns_test(), [])],
+        ])
+        _, head, hp, st = p
+        return ("path", head, hp, st + more)
+
+    def g_ns(self):
+        r = self.r
+        k = r.random()
+        p = self.ns_path()
+        if k < 0.40:
+            return p
+        if k < 0.62:
+            return self.after(p)
+        if k < 0.80:
+            other = r.choice([self.ns_path(), self.after(self.ns_path()),
+                              ("path", None, [], self.el_steps() + [("attribute", ("name", None, None), [])]),
+                              ("path", None, [], [("root", "root", []), ("descendant-or-self", "node", []), ("namespace", ("name", None, None), [])])])
+            ops = [p, other] if r.random() < 0.5 else [other, p]
+            if r.random() < 0.2:
+                ops.append(self.ns_path())
+            return ("union", ops)
+        if k < 0.92:
+            u = ("union", [p, self.ns_path()]) if r.random() < 0.6 else p
+            preds = [self.ns_pred() for _ in range(r.choice([1, 1, 2]))]
+            steps = [] if r.random() < 0.6 else [("parent", "node", [])]
+            return ("path", ("group", u), preds, steps)
+        # an element path whose predicate looks at the namespace axis
+        st = [("root", "root", []), ("descendant", ("name", None, None), [self.el_pred()])]
+        return ("path", None, [], st)
+
+    def gen(self):
+        r, F = self.r, self.F
+        k = r.random()
+        if k < 0.22:
+            e = self.g_ns()
+        elif k < 0.40:
+            e = F("count", self.g_ns())
+        elif k < 0.58:
+            e = F(r.choice(["name", "name", "local-name", "namespace-uri", "string", "string", "string-length", "normalize-space"]), self.g_ns())
+        elif k < 0.66:
+            e = F(r.choice(["boolean", "not"]), self.g_ns())
+        elif k < 0.78:
+            other = r.choice([("lit", r.choice(self.uris)), self.g_ns(), ("num", "1"), F("true"), F("namespace-uri", ("path", None, [], [("self", "node", [])])), F("string", self.g_ns())])
+            a, b = (self.g_ns(), other) if r.random() < 0.6 else (other, self.g_ns())
+            e = self.g.binop(r.choice(["eq", "eq", "ne", "lt", "gte"]), a, b)
+        elif k < 0.86:
+            e = self.g.binop(r.choice(["minus", "plus", "eq", "lt"]), F("count", self.g_ns()), F("count", self.g_ns()))
+        elif k < 0.93:
+            n = self.g_ns()
+            e = F("concat", F("name", n), ("lit", "="), F("string", n))
+        else:
+            e = self.g.binop(r.choice(["and", "or"]), F("boolean", self.g_ns()), self.g.gen("bool", 1))
+        return fix_bare_root(e)
